@@ -12,12 +12,12 @@ place="$(head -1 "$d/demo_test.go" | sed -n 's#^// place in: *##p' | tr -d '\r' 
 [ -z "$place" ] && place="."
 race=""; grep -qi "race" "$d/meta.json" "$d/notes.md" 2>/dev/null && grep -qi -- "-race" "$d/notes.md" "$d/meta.json" 2>/dev/null && race="-race"
 cd "$wt"
-cp "$d/demo_test.go" "$wt/$place/zz_seed_demo_test.go"
+mkdir -p "$wt/$place"; cp "$d/demo_test.go" "$wt/$place/zz_seed_demo_test.go"
 go test -vet=off -count=1 $race "./$place/" -run 'Seed|C[0-9][0-9]|Demo' >"$wt/.without.log" 2>&1; without=$?
 rm -f "$wt/$place/zz_seed_demo_test.go"
 if git apply "$d/patch.diff" 2>"$wt/.apply.log"; then apply=ok; else apply=FAIL; fi
 go test -vet=off -count=1 ./... >"$wt/.suite.log" 2>&1; suite=$?
-cp "$d/demo_test.go" "$wt/$place/zz_seed_demo_test.go"
+mkdir -p "$wt/$place"; cp "$d/demo_test.go" "$wt/$place/zz_seed_demo_test.go"
 go test -vet=off -count=1 $race "./$place/" -run 'Seed|C[0-9][0-9]|Demo' >"$wt/.with.log" 2>&1; with=$?
 echo "SEED $d apply=$apply suite_exit=$suite demo_with_exit=$with demo_without_exit=$without race=${race:-no}"
 if [ "$apply" != ok ] || [ $suite -ne 0 ] || [ $with -eq 0 ] || [ $without -ne 0 ]; then
